@@ -162,7 +162,7 @@ PREFIX = {
 STIMULI = (
     [['recv', k] for k in RECV_KINDS]
     + [['eof', None], ['sockerr', None], ['incoming', None], ['connect_ok', None], ['connect_fail', None], ['tick', 0.3],
-       ['silence', 70], ['silence', 200], ['teardown', 2], ['teardown', 4], ['reestablish', None], ['reconfigure', None],
+       ['silence', 70], ['silence', 200], ['teardown', 2], ['teardown', 4], ['reestablish', None], ['reload', None],
        ['remove', None], ['shutdown', None], ['refresh', None], ['upfail', None]]
 )
 
@@ -175,9 +175,6 @@ def systematic():
                 if fast and pname not in ('M0', 'MN', 'MNq', 'Wb', 'Wacc', 'RK'):
                     continue
                 s = list(stim) + ([0.05] if fast else [])
-                # a teardown is noticed by the main loop within 100 ms: the next stimulus comes later
-                if fast and stim[0] in ('teardown', 'reestablish', 'remove', 'shutdown'):
-                    s = list(stim) + [0.15]
                 cases.append({'name': f'{pname}+{stim[0]}:{stim[1]}' + ('/fast' if fast else ''), 'steps': [list(x) for x in pfx] + [s] + CONT})
     # named scenarios (D13 and variants, long silences)
     cases.append({'name': 'D13', 'steps': [['connect_ok', None], ['incoming', None], ['recv', 'OpenOk'], ['recv', 'Keepalive'], ['silence', 70]]})
@@ -189,8 +186,8 @@ def systematic():
 
 
 def interleaved():
-    """ORACLE-ONLY scripts (the abstraction has no place for 'a message partly received', nor for the 1 ms
-    pause that ends a main-loop iteration; the model is not asked to predict these traces):
+    """scripts around the read in progress and the end of an iteration (in the correspondence since Model_Session has
+    `pend`, `ho`, MP and the events RecvPart / Handover / LoopPause / LoopExit):
     (a) one message delivered in two or three pieces separated by pauses below and above the 100 ms read wait,
         with a reload (same neighbor, other routes) / API command / teardown falling INSIDE the pause;
     (b) two sessions: the first is torn down while octets of the peer arrive after the read wait returned and
@@ -216,17 +213,17 @@ def interleaved():
                             for st in istim:
                                 steps.append(list(st) + ([] if len(st) > 2 else [gap]))
                     valid = kind in ('UpdateOk', 'Eor', 'Keepalive', 'Refresh') and iname != 'teardown'
-                    cases.append({'name': f'split:{kind}:{cuts}:{gap}:{iname}', 'oracle_only': True, 'expect_up': valid,
+                    cases.append({'name': f'split:{kind}:{cuts}:{gap}:{iname}', 'expect_up': valid,
                                   'steps': steps + (tail if valid else [['tick', 1.0]])})
     # the same in OPENSENT / OPENCONFIRM (handshake messages arriving in pieces)
     for gap in (0.04, 0.25):
-        cases.append({'name': f'split:handshake:{gap}', 'oracle_only': True, 'expect_up': True,
+        cases.append({'name': f'split:handshake:{gap}', 'expect_up': True,
                       'steps': [['connect_ok', None], ['recv_part', ['OpenOk', 0, 11], gap], ['recv_part', ['OpenOk', 11, -1]],
                                 ['recv_part', ['Keepalive', 0, 18], gap], ['recv_part', ['Keepalive', 18, -1]], ['tick', 1.0]] + tail})
     session2 = [['connect_ok', None], ['recv', 'OpenOk'], ['recv', 'Keepalive'], ['tick', 1.0], ['recv', 'UpdateOk'], ['recv', 'Keepalive'], ['tick', 1.0]]
     for kind in ('HeaderBadMarker', 'HeaderShortLen', 'UnknownType', 'Notification', 'UpdateBadNlri', 'OpenBadVersion', 'Keepalive'):
         for code in (2, 4):
-            cases.append({'name': f'two-sessions:teardown-race:{kind}:{code}', 'oracle_only': True, 'expect_up': True,
+            cases.append({'name': f'two-sessions:teardown-race:{kind}:{code}', 'expect_up': True,
                           'steps': [list(x) for x in EST] + [['tick', 0.6], ['teardown_race', [code, kind], 0.5]] + session2})
     return cases
 
@@ -238,7 +235,7 @@ def random_case(rng, maxlen):
         steps += [list(x) for x in rng.choice([EST, EST[:2], EST[:1], PREFIX['Wb'], PREFIX['Wacc']])]
     weights = [
         ('recv', 10), ('connect_ok', 4), ('connect_fail', 1), ('incoming', 3), ('tick', 3), ('eof', 1), ('sockerr', 1),
-        ('silence', 1), ('teardown', 2), ('reestablish', 1), ('reconfigure', 1), ('remove', 1), ('refresh', 2), ('upfail', 1),
+        ('silence', 1), ('teardown', 2), ('reestablish', 1), ('reload', 1), ('remove', 1), ('refresh', 2), ('upfail', 1),
     ]
     names = [w for w, _ in weights]
     ws = [k for _, k in weights]
@@ -256,8 +253,6 @@ def random_case(rng, maxlen):
         else:
             arg = None
         gap = rng.choice([0.05, 0.05, 0.3, 0.5, 1.3])
-        if what in ('teardown', 'reestablish', 'remove', 'shutdown'):
-            gap = max(gap, 0.15)
         steps.append([what, arg, gap])
     return {'name': 'random', 'steps': steps}
 
@@ -296,7 +291,7 @@ def run_all(cases, workers=12):
 EV_TAG = {
     'Tick': 0, 'ConnectOk': 1, 'ConnectFail': 2, 'Incoming': 3, 'Recv': 4, 'Eof': 5, 'SockErr': 6, 'HoldExpire': 7,
     'OpenWaitExpire': 8, 'Teardown': 9, 'Reconfigure': 10, 'Reestablish': 10, 'Remove': 10, 'Shutdown': 10,
-    'ApiRefresh': 11, 'ProcessBroken': 12,
+    'ApiRefresh': 11, 'ProcessBroken': 12, 'RecvPart': 13, 'Handover': 14, 'LoopPause': 15, 'LoopExit': 16,
 }
 RELOAD_ARG = {'Reconfigure': 0, 'Reestablish': 1, 'Remove': 2, 'Shutdown': 2}
 W_CODE = {'OPEN': 2001, 'KEEPALIVE': 2002, 'UPDATE': 2003, 'EOR': 2004, 'REFRESH': 2005}
@@ -338,6 +333,8 @@ def abstract(log):
         if e[0] == 'deadlock':
             problems.append('virtual loop deadlock')
             continue
+        if e[0] == 'dropped':
+            continue  # judged by the oracle (a partly received message given up while the transport stays open)
         if cur is None:
             problems.append(f'effect before any stimulus: {e}')
             cur = [[0, 0], []]
@@ -423,6 +420,7 @@ def oracle(log, res, which=('C05', 'C10')):
                 tinfo[owned]['ka_rcvd'] = True
         td0, pb0 = td, pb
         left = False
+        dropped = []
         notifs = []
         wrote = []
         must_close = None
@@ -460,10 +458,13 @@ def oracle(log, res, which=('C05', 'C10')):
                     notifs.append((tid, c, s, stw))
                     if c == 6:
                         td = False
+            elif e[0] == 'dropped':
+                dropped.append(e[1])
             elif e[0] == 'close':
                 tid = e[1]
                 if tid in tinfo:
                     tinfo[tid]['closed'] = True
+                dropped[:] = [t for t in dropped if t != tid]
                 if tid == owned:
                     owned = None
                 if tid == must_close:
@@ -483,6 +484,9 @@ def oracle(log, res, which=('C05', 'C10')):
                     up = True
                 elif e[1] == 'down':
                     up = False
+        for tid in dropped:
+            bad.append((f'C10:partial-read-discarded:{ST_NAME[fsm0]}:{name}',
+                        f'the read in progress on transport {tid} was given up after {name} while it held part of a message, and the transport stays open: the rest of the message will be read as a header'))
         if must_close is not None:
             bad.append((f'C05:left-{ST_NAME[fsm0]}-transport-open', f'transport {must_close} still open after leaving {ST_NAME[fsm0]} ({name} {arg})'))
         for tid, t in tinfo.items():
@@ -580,7 +584,8 @@ Definition ev_of (p : Z * Z) : event :=
   else if t =? 4 then Recv (kind_of a) else if t =? 5 then Eof else if t =? 6 then SockErr else if t =? 7 then HoldExpire
   else if t =? 8 then OpenWaitExpire else if t =? 9 then Teardown a
   else if t =? 10 then Reload (if a =? 0 then Same else if a =? 1 then Changed else Removed)
-  else if t =? 11 then ApiRefresh else ProcessBroken.
+  else if t =? 11 then ApiRefresh else if t =? 12 then ProcessBroken else if t =? 13 then RecvPart
+  else if t =? 14 then Handover else if t =? 15 then LoopPause else LoopExit.
 Definition act_z (a : action) : Z :=
   match a with
   | Fsm x y => 1000 + 10 * idx x + idx y
@@ -604,7 +609,8 @@ Definition judge (t : list ((Z * Z) * list Z)) : list bool :=
 Definition in_alphabet (evs : list (Z * Z)) : bool :=
   forallb (fun p => existsb (fun e => match e, ev_of p with
      | Tick, Tick | ConnectOk, ConnectOk | ConnectFail, ConnectFail | Eof, Eof | SockErr, SockErr
-     | HoldExpire, HoldExpire | OpenWaitExpire, OpenWaitExpire | ApiRefresh, ApiRefresh | ProcessBroken, ProcessBroken => true
+     | HoldExpire, HoldExpire | OpenWaitExpire, OpenWaitExpire | ApiRefresh, ApiRefresh | ProcessBroken, ProcessBroken
+     | RecvPart, RecvPart | Handover, Handover | LoopPause, LoopPause | LoopExit, LoopExit => true
      | Incoming a, Incoming b => Bool.eqb a b
      | Teardown a, Teardown b => a =? b
      | Reload Same, Reload Same | Reload Changed, Reload Changed | Reload Removed, Reload Removed => true
@@ -686,7 +692,8 @@ def act_name(z):
 
 def ev_name(e):
     t, a = e
-    names = {0: 'Tick', 1: 'ConnectOk', 2: 'ConnectFail', 5: 'Eof', 6: 'SockErr', 7: 'HoldExpire', 8: 'OpenWaitExpire', 11: 'ApiRefresh', 12: 'ProcessBroken'}
+    names = {0: 'Tick', 1: 'ConnectOk', 2: 'ConnectFail', 5: 'Eof', 6: 'SockErr', 7: 'HoldExpire', 8: 'OpenWaitExpire', 11: 'ApiRefresh', 12: 'ProcessBroken',
+             13: 'RecvPart', 14: 'Handover', 15: 'LoopPause', 16: 'LoopExit'}
     if t in names:
         return names[t]
     if t == 3:
@@ -739,8 +746,7 @@ def campaign(run: Run, tier, seed, which, cases_override=None):
             for a in small:
                 for b in small:
                     for c in (small if pname in ('RO', 'MN') else [None]):
-                        # (an API teardown is noticed by the main loop within 100 ms: the next stimulus comes later)
-                        ga = 0.15 if a[0] in ('teardown', 'remove') else 0.05
+                        ga = 0.05
                         steps = [list(x) for x in PREFIX[pname]] + [list(a) + [ga], list(b) + [0.3]] + ([list(c)] if c else []) + CONT[:2]
                         cases.append({'name': f'small:{pname}', 'steps': steps})
     results = run_all(cases)
@@ -839,9 +845,8 @@ def campaign(run: Run, tier, seed, which, cases_override=None):
         'observations_not_flagged': dict(notes),
         'oracle_only_scripts': {
             'count': sum(1 for c in cases if c.get('oracle_only')),
-            'why': 'messages delivered in pieces around the 100 ms read wait with reload / API command / teardown inside the pause, '
-                   'and two-session scripts where octets arrive in the last 1 ms pause of the torn-down session: Model_Session has no '
-                   'state for a partly received message, these traces are judged by the property oracle only',
+            'why': 'none expected: the interleaved scripts (messages in pieces around the 100 ms read wait with reload / API command / '
+                   'teardown inside the pause; octets arriving in the last 1 ms pause of a torn-down session) are in the correspondence',
         },
         'spec_checker_failures': {cases[i]['name']: f for i, f in list(spec_bad.items())[:20]},
     })
